@@ -2,6 +2,7 @@ CONSTANT MaxCalls = 3
 CONSTANT Ks = {0}
 CONSTANT SkelIds = {1}
 CONSTANT AllPatterns = FALSE
+CONSTANT FreeSets = {{}}
 CONSTANT TrackHist = FALSE
 CONSTANT SampleMod = 1
 CONSTANT SamplePick = 0
